@@ -143,6 +143,8 @@ def execute(cases, workdir):
             recs[cid] = r
             continue
         r['wf'] = ('WF 1' in ml)
+        tl = [l for l in il if l.startswith('TIME ')]
+        r['build_ms'] = int(tl[0][5:]) if tl else 0
         mo = [l for l in ml if l.startswith('OUTCOME ')][0].split(' ')
         io = [l for l in il if l.startswith('OUTCOME ')][0].split(' ')
         r['model_outcome'], r['impl_outcome'] = mo[1], io[1]
